@@ -333,7 +333,7 @@ def main():
                   "F19 (C10), F29 (C03) - classified by TLC clause names, see known_findings.json. Pinned / deliberately broken instances of "
                   "the specification are run and must be refuted by TLC (Run.expect_refuted). Beyond the listed properties: ./check X01 "
                   "(Session.tla: in-place mutation of a collection) and ./check X02 (Zoom.tla: construction of multi-resolution files "
-                  "killed at every step), evidence under evidence_extra/."),
+                  "killed at every step) and ./check X03 (NatSort.tla: natural ordering of sequence names, read_chromsizes), evidence under evidence_extra/."),
         "not_applicable": [{"property_id": p, "reason": NA.get(p, REASON_PENDING)} for p in ALL if p not in CLAIMED],
     }
     with open(os.path.join(ROOT, "MANIFEST.json"), "w") as f:
